@@ -108,6 +108,17 @@ theorem loaded_cache_transparent {ρ : Type} (load : String → ρ) (history : L
     memoRun (fun p => p) load [] history = history.map load :=
   complete_key_transparent (fun p => p) load (fun _ _ h => h) history
 
+/-- STATE LEFT BEHIND BY A REFUSED CALL (round 8, C18-m1).  With `f = load : path → Option kernel` (`none` = the file is refused) a table entry under the
+key of `a` whose value is not `f a` - the half-filled kernel that a loader publishes before it has finished - is what the next use of `a` is answered with:
+the process no longer answers like a fresh one.  (Converse: from a table that is `memoSound` every history is answered by `f`: `memoRun_eq_map`.) -/
+theorem memoRun_unsound_entry_visible (key : ι → κ) (f : ι → β) (tbl : List (κ × β)) (a : ι) (v : β)
+    (h : tbl.lookup (key a) = some v) (hv : v ≠ f a) : memoRun key f tbl [a] ≠ [f a] := by
+  simp [memoRun, memoStep, h, hv]
+
+/-- a kernel file of 77 columns that is refused (`none`), 40 interpolators left registered: the second use is answered with them -/
+example : memoRun (fun p : String => p) (fun p => if p = "my-kernel.csv" then (none : Option ℕ) else some 77) [("my-kernel.csv", some 40)] ["my-kernel.csv"]
+    = [some 40] := by decide
+
 /-! ### witnesses at concrete types -/
 
 /-- two kernel files with the same file name in different directories, cache keyed by the file name: the second
